@@ -438,6 +438,12 @@ func (t *ValueSet) result(r Result) Result {
 	// any pointers. We know this to be true already since we analyzed the
 	// function earlier.
 	if !t.lifted() {
+		// Work on a copy of the output slice: r may be the memoized Result
+		// of a FuncOnce function, whose slice must never be rewritten.
+		out := make([]reflect.Value, len(r.out))
+		copy(out, r.out)
+		r.out = out
+
 		for i := uint8(0); i < t.structPointers; i++ {
 			r.out[0] = r.out[0].Elem()
 		}
